@@ -172,7 +172,7 @@ pub fn profiles() -> Vec<Profile> {
     ]
 }
 
-fn valid_text(stream: &[u32], prof: &Profile) -> String {
+pub fn valid_text(stream: &[u32], prof: &Profile) -> String {
     let g = ggen::build(prof, stream);
     let tail: Vec<u32> = stream.iter().rev().take(300).copied().collect();
     let mut d = Dice::new(&tail);
@@ -274,6 +274,7 @@ pub fn run17(ctx: &Ctx) -> i32 {
     }
     let _ = std::fs::remove_dir_all(&dir);
     crate::lab::cleanup_scratch();
+    crate::fuzzstage::maybe(ctx, "C17", &mut ev, &mut rep);
     let code = rep.finish(&mut ev);
     ev.write();
     code
@@ -348,6 +349,7 @@ pub fn run18(ctx: &Ctx) -> i32 {
     }
     let _ = std::fs::remove_dir_all(&dir);
     crate::lab::cleanup_scratch();
+    crate::fuzzstage::maybe(ctx, "C18", &mut ev, &mut rep);
     let code = rep.finish(&mut ev);
     ev.write();
     code
